@@ -339,6 +339,54 @@ def run(rep: vk.Report):
                 rep.violation({"kind": "shape", "obligation": "the vectorised writing of a formula gives the variables, value and optimum of the loop-built one",
                                "witness": {"n": nvec, "stride_order": list(order), "variables_vectorised": nv_, "variables_loop": nl_,
                                            "solve_vectorised": solved[0], "solve_loop": solved[1], "value_vectorised": vv, "value_loop": vl}}, concrete=True)
+    # ---- the same formula as ONE vector node around constants vs term by term: every derivative entry point and an NLP solve
+    from optyx import VectorVariable as _VVq, Problem as _Pq
+    jac_cmp = 0
+    for trial in range(10 if quick else 120):
+        r = random.Random(rng.random())
+        nq = r.randint(2, 5)
+        xq = _VVq(r.choice(["x", "q"]), nq, lb=-3.0, ub=3.0)
+        wq = np.array([1.0 + 0.5 * k_ * (-1 if k_ % 2 else 1) for k_ in range(nq)])
+        c0 = r.choice([9.0, 4.0, 12.5])
+        fam = trial % 6
+        if fam == 0:
+            vect, loop = c0 - xq.dot(xq), c0 - sum((xq[k_] * xq[k_] for k_ in range(1, nq)), xq[0] * xq[0])
+        elif fam == 1:
+            vect, loop = c0 - wq @ xq, c0 - sum((float(wq[k_]) * xq[k_] for k_ in range(1, nq)), float(wq[0]) * xq[0])
+        elif fam == 2:
+            vect, loop = (c0 - xq.sum()) + 1 - 2, (c0 - sum((xq[k_] for k_ in range(1, nq)), xq[0])) + 1 - 2
+        elif fam == 3:
+            vect, loop = 2 + (c0 - (xq ** 2).sum()), 2 + (c0 - sum((xq[k_] ** 2 for k_ in range(1, nq)), xq[0] ** 2))
+        elif fam == 4:
+            vect, loop = xq.dot(xq) - c0, sum((xq[k_] * xq[k_] for k_ in range(1, nq)), xq[0] * xq[0]) - c0
+        else:
+            vect, loop = c0 + wq @ xq - 1, c0 + sum((float(wq[k_]) * xq[k_] for k_ in range(1, nq)), float(wq[0]) * xq[0]) - 1
+        Vq = list(xq)
+        ptq = np.array([0.5 + 0.25 * k_ for k_ in range(nq)])
+        jac_cmp += 1
+        got = {}
+        with np.errstate(all="ignore"), warnings.catch_warnings():
+            warnings.simplefilter("ignore")
+            for nm_, ee in (("vectorised", vect), ("loop", loop)):
+                got[nm_] = {"compile_jacobian": np.round(np.asarray(AD.compile_jacobian([ee], Vq)(ptq), dtype=float).reshape(-1), 9).tolist(),
+                            "compile_gradient": np.round(np.asarray(C.compile_gradient(ee, Vq)(ptq), dtype=float).reshape(-1), 9).tolist(),
+                            "gradient()": [round(float(AD.gradient(ee, v_).evaluate({t_.name: float(ptq[k_]) for k_, t_ in enumerate(Vq)})), 9) for v_ in Vq]}
+            # the formula as a constraint body / objective of a small NLP
+            sols = {}
+            for nm_, ee in (("vectorised", vect), ("loop", loop)):
+                Pq = _Pq().maximize(wq @ xq) if fam in (0, 3, 4) else _Pq().minimize(((xq - 1) ** 2).sum())
+                Pq.subject_to(ee >= 0 if fam != 4 else ee <= 0)
+                try:
+                    sq = Pq.solve(method="SLSQP")
+                    sols[nm_] = (sq.status.value, None if sq.objective_value is None else round(sq.objective_value, 5))
+                except Exception as ex:
+                    sols[nm_] = ("raised", repr(ex)[:100])
+        if got["vectorised"] != got["loop"] or sols["vectorised"] != sols["loop"]:
+            shape_diffs += 1
+            rep.violation({"kind": "shape", "obligation": "derivatives and solve results of a formula written with one vector node equal those of the term-by-term writing",
+                           "witness": {"family": fam, "n": nq, "constant": c0, "weights": wq.tolist(), "point": ptq.tolist(),
+                                       "vectorised": got["vectorised"], "loop": got["loop"], "solve_vectorised": sols["vectorised"], "solve_loop": sols["loop"]}},
+                          concrete=True)
     sfails = structs.run(shard=4)
     nfails, nund = common.run_classify(IMPORTS, DEFS, NUM_TYPE, nums, NUM_CHECKER, shard=4) if nums else ([], [])
     for i in sfails:
@@ -355,6 +403,7 @@ def run(rep: vk.Report):
                    "distinct = distinct (base, op, n, association); non-trivial = all (every chain has hundreds of nodes)")
     cov["samples"] = [dict(m) for m in structs.meta[:4]]
     cov["vectorised_vs_loop_comparisons"] = vec_cmp
+    cov["vector_node_vs_term_by_term_derivative_and_solve_comparisons"] = jac_cmp
     cov["plan_size"] = len(plan)
     cov["numeric_checks"] = len(nums)
     cov["numeric_undecided"] = len(nund)
